@@ -64,7 +64,9 @@ PROPS = {
     "C19": dict(
         generated=True,
         lean=["GolibsVerif.Props.C19"],
-        seq=[dict(comp="errs", stateless=True, decisive=lambda d: d["op"].startswith("mon C19"))],
+        # every op of this component is an API call of the errors package (Is / GRPCStatusCode / GRPCWrap /
+        # ExtractObject / FromGRPCError): a different answer IS a failing input
+        seq=[dict(comp="errs", stateless=True, decisive=lambda d: True)],
         rule="cases = calls of Is/GRPCStatusCode/GRPCWrap/ExtractObject/FromGRPCError on errors built from recipes: 12 classes x wrap depth 0..3 (thorough 4) x embedded object at every position (or none) x message texts incl. JSON, colons, % verbs, unicode and the marker's neighbours (ESC, 'json', ESC+'jso', 'son'+ESC) x every target class; all 17 codes; status/plain bases outside the hypothesis for model/code agreement; non-trivial = wrap depth >= 1 or an embedded object present; distinct by op text",
         assumptions=["wrapping texts do not contain the complete embed marker ESC+'json'", "chains are single-%w (linear) chains"],
         trusted=["modelled, not verified: errors.Is/As, fmt.Errorf %w, grpc status.Code/FromError/Error (v1.55), strings.Split, encoding/json", "class list, both tables and the marker are regenerated from errors.go / grpc.go by harness/cmd/extract"],
@@ -107,10 +109,16 @@ PROPS = {
         explanation="C17.refines_set (outputs equal to the set model for every op sequence from any opened allocator: least free index handed out, ErrExhausted iff full, Available exact, reopen reproduces the set), geometry_valid_iff_accepted, ranges_disjoint, reopen_same_state, data_untouched; legacy_accepts_invalid is the kernel-checked witness of D4",
     ),
     "C12": dict(
-        lean=["GolibsVerif.Props.C12"],
+        lean=["GolibsVerif.Props.C12", "GolibsVerif.Props.C13Exec"],
         seq=[dict(comp="tmo", decisive=lambda d: d["op"].startswith("mon C12"))],
-        rule="cases = sequences of the dispatcher's critical sections driven on a private callControl through the package's own add()/cancel()/heap.Pop: exhaustive to depth 6 (quick) / 7 (thorough) over {add with fire time 1,2,3 (ties), cancel of each of the first 4 futures (repeated, after pop), pop}; random sequences of 10..120 ops with fire-time spreads 3/10/1000; the snapshot [(id, idx, fireT)] of the real heap array and the idx field of EVERY future created so far are compared after every op; non-trivial = a Cancel hit a non-last heap position or two equal deadlines coexisted; distinct by hash of the op list",
-        assumptions=["Cancel is only called on a future that Call returned (validOps)", "the watcher's decision `now.After(head.fireT)` and real timers are tied by the C13 trace run, not here"],
+        go_cmds=("seq", "conc"),
+        # the concurrent side (Cancel from other goroutines parked right before the dispatcher's lock while
+        # watchers pop): the pool trace harness of C13; what C12 talks about = its timer monitors
+        conc=[dict(comp="pool", driver="pooltrace",
+                   decisive=lambda d: any(d["op"].startswith("mon " + m) for m in ("C12", "C13-never-early", "C13-at-most-once", "C13-cancelled-never-starts", "C13-every-live-future-fires", "C13-someone-responsible")),
+                   ignore=lambda d: d["op"].startswith("mon C13-winds-down") or d["op"].startswith("mon C13-init-config"))],
+        rule="cases = sequences of the dispatcher's critical sections driven on a private callControl through the package's own add()/cancel()/heap.Pop: exhaustive to depth 6 (quick) / 7 (thorough) over {add with fire time 1,2,3 (ties), cancel of each of the first 4 futures (repeated, after pop), pop}; random sequences of 10..120 ops with fire-time spreads 3/10/1000; the snapshot [(id, idx, fireT)] of the real heap array and the idx field of EVERY future created so far are compared after every op; non-trivial = a Cancel hit a non-last heap position or two equal deadlines coexisted; distinct by hash of the op list. Plus bursts (70..600 pending, drain, re-cancel, regrow). Concurrent side: the pool trace harness of C13 (real dispatcher, virtual clock) with Cancel() calls issued from other goroutines and parked right before the dispatcher's lock while watchers pop and other futures move (cancelhold / release)",
+        assumptions=["Cancel is only called on a future that Call returned (validOps)", "the watcher's decision `!now.Before(head.fireT)` and real timers are tied by the pool trace run"],
         trusted=["modelled, not verified: Go's container/heap is TRANSCRIBED (up/down/Push/Pop/Remove) and proved; sync.Mutex makes every dispatcher section atomic"],
         explanation="C12.idx_inv (index integrity + heap order for every sequence of critical sections), cancel_removes_exactly, never_early, at_most_once, cancel_before_due_never_starts, root_is_min",
     ),
